@@ -12,7 +12,7 @@ import (
 )
 
 func init() {
-	register("C12", "Decides who-may-write and list-scope structure: (R1) the set of API write effects reachable from each of the four Reconcile entry points is within a fixed table; (R2) every List of a namespaced kind reachable from a reconciler carries, on every path that builds its options, a namespace restriction deriving from an object's namespace, and replica-set/pod lists also a label restriction binding the ExtendedDaemonSet-name or replica-set-name label key to an object's name (or, for the migration list, an owner-reference filter, R3); (R4) constructors of created objects and Get keys take the namespace from an object/request, never a constant; (R6) the parent of a replica set is looked up only from an owner reference of kind ExtendedDaemonSet.", runC12)
+	register("C12", "Decides who-may-write and list-scope structure: (R1) the set of API write effects reachable from each of the four Reconcile entry points is within a fixed table; (R2) every List of a namespaced kind reachable from a reconciler carries, on every path that builds its options, a namespace restriction deriving from an object's namespace, and replica-set/pod lists also a label restriction binding the ExtendedDaemonSet-name or replica-set-name label key to an object's name (or, for the migration list, an owner-reference filter, R3); (R4) constructors of created objects and Get keys take the namespace from an object/request, never a constant; (R6) the parent of a replica set is looked up only from an owner reference of kind ExtendedDaemonSet; (R7) the owner-linking labels are written after any copy of user labels into the same map.", runC12)
 }
 
 var reconcilerPkgs = map[string]string{"EDS": pkgEDS, "ERS": pkgERS, "Setting": pkgSetting, "PodTemplate": pkgPodTpl}
@@ -225,6 +225,7 @@ func runC12(r *Run) {
 			c12OwnerLookup(r, effs, reach)
 		}
 	}
+	c12ReservedLabelPrecedence(r)
 }
 
 func c12ListScope(r *Run, e *Effect, edsKey, ersKey, oldDSKey string) {
